@@ -62,10 +62,10 @@ _PLAN = {}
 
 def _cases(tier):
     cfgs = CONFIGS_Q if tier == "quick" else CONFIGS_T
-    cases = [("triple", ci, w, p, s) for (ci, w, p) in triples(cfgs) for s in range(1 if tier == "quick" else 3)]
-    cases += [("async", i) for i in range(12 if tier == "quick" else 120)]
-    cases += [("double", i) for i in range(10 if tier == "quick" else 100)]
-    cases += [("in_pipe_write", i) for i in range(1 if tier == "quick" else 4)]
+    cases = [("triple", ci, w, p, s) for (ci, w, p) in triples(cfgs) for s in range(1 if tier == "quick" else 6)]
+    cases += [("async", i) for i in range(12 if tier == "quick" else 300)]
+    cases += [("double", i) for i in range(10 if tier == "quick" else 250)]
+    cases += [("in_pipe_write", i) for i in range(1 if tier == "quick" else 8)]
     cases += [("holding_writer_lock", i) for i in range(len(LOCK_CFGS) if tier == "quick" else 4 * len(LOCK_CFGS))]
     return cfgs, cases
 
